@@ -33,6 +33,8 @@ type Parser struct {
 	mi         int
 	num        Number
 	rn         rune
+	hi         rune // pending high surrogate of a \u escape
+	hiEnd      int  // len(tmp) right after that escape
 	result     Node
 	mode       string
 	nextMode   string
@@ -74,6 +76,7 @@ func (p *Parser) Parse(buf []byte, args ...any) (Node, error) {
 	} else {
 		p.stack = p.stack[:0]
 		p.tmp = p.tmp[:0]
+		p.hi = 0
 		p.starts = p.starts[:0]
 	}
 	p.result = nil
@@ -130,6 +133,7 @@ func (p *Parser) ParseReader(r io.Reader, args ...any) (data Node, err error) {
 	} else {
 		p.stack = p.stack[:0]
 		p.tmp = p.tmp[:0]
+		p.hi = 0
 		p.starts = p.starts[:0]
 	}
 	p.result = nil
@@ -442,6 +446,7 @@ func (p *Parser) parseBuffer(buf []byte, last bool) error {
 			p.mode = expSignMap
 			continue
 		case strQuote:
+			p.hi = 0
 			p.mode = p.nextMode
 			if p.mode[':'] == colonColon {
 				p.stack = append(p.stack, Key(p.tmp))
@@ -495,8 +500,23 @@ func (p *Parser) parseBuffer(buf []byte, last bool) error {
 				if len(p.runeBytes) < 6 {
 					p.runeBytes = make([]byte, 6)
 				}
-				n := utf8.EncodeRune(p.runeBytes, p.rn)
+				rn := p.rn
+				switch {
+				case 0xDC00 <= rn && rn <= 0xDFFF && p.hi != 0 && p.hiEnd == len(p.tmp):
+					// The low half of a surrogate pair directly after the high
+					// half. Together they are one code point so take back the
+					// replacement character written for the high half.
+					p.tmp = p.tmp[:len(p.tmp)-3]
+					rn = 0x10000 + (p.hi-0xD800)<<10 + (rn - 0xDC00)
+					p.hi = 0
+				case 0xD800 <= rn && rn <= 0xDBFF:
+					p.hi = rn
+				default:
+					p.hi = 0
+				}
+				n := utf8.EncodeRune(p.runeBytes, rn)
 				p.tmp = append(p.tmp, p.runeBytes[:n]...)
+				p.hiEnd = len(p.tmp)
 				p.mode = stringMap
 			}
 			continue
